@@ -45,7 +45,7 @@ CHECKS = {
  "C14": dict(
    level="exploration", design="DESIGN.md §7 C14",
    text="Simulated store with 1-3 value logs and 256-1024 byte chunks; concurrent committers (empty values at a raised rate, small MaxConcurrency, committers starved inside their commit and the opt-in yield while a value log is held, so values land in the value logs far out of id order); then 1-2 rounds of TruncateUptoTx at a seeded cut, optionally two truncations at once, racing with writers and a reader task that keeps re-reading transactions at or after the cut. Oracle after each round and after close/reopen: every transaction at or after the cut reads back value by value as acknowledged; headers, chain, BlRoot, dual proofs and the index (Get/History/scan against the model of the log) intact; every ExportTx terminates (complete and unchanged at or after the cut; complete, by digest or an explicit error before it) and a healthy export still works after a failed one; the store accepts commits afterwards. A run that cannot finish (deadlock, lost wake-up) is a liveness violation with the blocked goroutines listed.",
-   note="Store level only: the pkg/database truncator loop, SQL catalog copy and document collections after truncation are not driven by this check yet.",
+   note="Layer B (a quarter of the runs): a pkg/database database with a SQL table (CHECK constraint, secondary index), a document collection with an index and plain keys, written by concurrent tasks while a truncator task runs database.NewVlogTruncator(...).TruncateUptoTx (catalog copy + value-log truncation) at seeded cuts; afterwards and after a restart everything written at or after the last cut reads back through Get, SQL and document search, the constraint still rejects, rows are still found through the secondary index, new rows and documents can be written, and ExportTxByID works from the cut on. Not driven: the pkg/truncator retention-period loop (cut points are chosen by the harness, not by the clock).",
    technique="deterministic simulation: seeded schedules of committers/truncation/readers vs ledger oracle + liveness bound"),
  "C05": dict(
    level="exploration", design="DESIGN.md §7 C05",
@@ -80,12 +80,12 @@ CHECKS = {
  "C13": dict(
    level="exploration", design="DESIGN.md §7 C13",
    text="2-4 session tasks run generated explicit transactions (INSERT/UPDATE/DELETE/SELECT, COMMIT or ROLLBACK, SAVEPOINT + ROLLBACK TO SAVEPOINT) over one table, plus an observer outside any transaction. A reference interpreter replays the committed transactions serially in commit order: every in-transaction SELECT must equal interpreter(state before the transaction + own earlier statements), affected-row counts must match, the final table must equal the serial execution (rolled back and failed transactions leave no trace), the observer only ever sees states after a prefix of the committed transactions, and transactions that did not commit saw a committed state plus their own changes.",
-   note="Two layers. A (85% of the runs): embedded/sql engine API, concurrent session tasks under the scheduler, savepoints. B (15%): the server's session transaction API over in-bubble gRPC (NewTx / TxSQLExec / TxSQLQuery / Commit / Rollback on a real ImmuServer), sessions advanced one statement at a time in seeded order, sessions closed or expired by the simulated clock in the middle of a transaction; same oracle (serial replay against the reference interpreter, no trace of what did not commit, COMMIT after the session ended must fail). Not driven: the PostgreSQL wire front-end, DDL inside transactions (except C12's rolled-back DROP CONSTRAINT), RELEASE SAVEPOINT, per-statement affected-row counts in layer B (TxSQLExec does not return them).",
+   note="Two layers. A (85% of the runs): embedded/sql engine API, concurrent session tasks under the scheduler, savepoints. B (15%): the server's session transaction API over in-bubble gRPC (NewTx / TxSQLExec / TxSQLQuery / Commit / Rollback on a real ImmuServer), sessions advanced one statement at a time in seeded order, sessions closed or expired by the simulated clock in the middle of a transaction; same oracle (serial replay against the reference interpreter, no trace of what did not commit, COMMIT after the session ended must fail); each session may hold a read-only transaction next to its read-write one (begun and ended independently, its queries must show one committed state); a second table with an AUTO_INCREMENT key takes single- and multi-row inserts, and the total of affected rows and the generated key reported by COMMIT are compared with the serial execution and the rows found afterwards. Not driven: the PostgreSQL wire front-end, DDL inside transactions (except C12's rolled-back DROP CONSTRAINT), RELEASE SAVEPOINT, per-statement affected-row counts in layer B (TxSQLExec does not return them).",
    technique="deterministic simulation: seeded concurrent session programs vs reference interpreter, serial replay in commit order"),
  "C18": dict(
    level="exploration", design="DESIGN.md §7 C18",
    text="A real ImmuServer with authentication on (system, default and three user databases; a system administrator and users holding Admin, RW, R and no permission on db1) runs inside the bubble and is driven over real gRPC (bufconn) with its own interceptor chain. Every method found in the three registered service descriptors (ImmuService unary and streaming, DocumentService, AuthorizationService: 93 methods, enumerated at run time so a newly added RPC is included or the check reports that it has no classification) is called, in seeded order, for a seeded cell = (user, selected database: own / other / systemdb / none, credentials: session or legacy token, credential state: valid, none, garbage, closed/logged out, expired by inactivity (simulated clock + session guard), token expired (simulated clock), user deactivated after login, permission revoked after login, permission changed after login). Oracle, derived from the statement and one-directional (stricter than required is fine): a method whose minimum level (none / authenticated / R / RW / Admin; writes on systemdb refused for everyone) exceeds the caller's, or any method needing credentials when their state is not valid, must return an error, deliver no message on a stream, and leave the fingerprint (committed state of systemdb, defaultdb and the three user databases, or the reason it is unreadable) unchanged; ListUsers and DatabaseList(V2) must not show users or databases beyond the caller's rights; request templates are valid requests (the same templates succeed for sufficiently privileged callers, counted per run).",
-   note="One client, sequential requests: a permission change racing with an in-flight request is not explored. Session expiry by maximum age, database unload while a session is open, SQL privileges (ChangeSQLPrivileges / per-statement privileges), the pgwire front-end and the REST gateway are not driven. Client-stream payloads are minimal (streamExecAll / replicateTx / streamExportTx are sent empty).",
+   note="One client, sequential requests: a permission change racing with an in-flight request is not explored. Session expiry by maximum age, database unload while a session is open, SQL privileges (ChangeSQLPrivileges / per-statement privileges), the pgwire front-end and the REST gateway are not driven. Requests are well-formed enough that 85 of the 93 methods are served to authorised callers (a probe per method in the evidence says which); never served to anyone, so a missing gate there would only show through its effects: OpenSession / Login (wrong password on purpose), TruncateDatabase (no data older than the minimum retention period), UpdateAuthConfig / UpdateMTLSConfig (not supported by the server), replicateTx (no replica database). Transaction calls (TxSQLExec / TxSQLQuery / Commit / Rollback) refer to a transaction the session opened while its credentials were still good.",
    technique="deterministic simulation: real server over in-bubble gRPC, simulated clock for session/token expiry, seeded cells of the method x role x database x credential-state matrix"),
  "C19": dict(
    level="exploration", design="DESIGN.md §7 C19",
